@@ -460,6 +460,7 @@ def main(argv):
             "Not decided: element addresses/values at run time."
             " Added later as premises: C06's R-LENFLOW / R-ITERLOOP (the fat constructor writes exactly as many slots as the thin constructor records, or panics) and C05's R-LAYOUT (the block is sized for that many, on every target width analysed); a signature-level clause of R-PROT-MUT."
             ' R-THICK: no owning handle is ever typed at the thin prefix type.'
+            ' Round thirteen: the length check may be a comparison of tuples containing the (recorded length, slice length) pair.'
         ),
         rule_text="instances = typestate entry points and their call sites, mutable-access sites into the protected payload, users of the re-fattening helper, conversions",
         trusted_base=["rustc MIR, type information and privacy", "C03 (no `&mut` to a shared payload), C04 (count balance)"],
